@@ -110,6 +110,8 @@ def gen_case(rng, tier="quick"):
         elif kind in ("spectral_density", "prop_derivative"):
             fault["mode"] = "call"
             fault["n"] = int(round(10 ** rng.uniform(0, 3.5)))
+        fault["exc"] = _pick(rng, ["exception", "value_error", "interrupt"],
+                             [5, 2, 2])
         case["fault"] = fault
     if rng.random() < 0.25:
         # one exactly placed pre-emption (see simsched.DirectedSchedule)
@@ -644,6 +646,8 @@ def run_case(case, dec):
         sim.script = simsched.DirectedSchedule(*case["directed"])
     env = _install(sim)
     plan = models.FaultPlan()
+    plan.exc_class = models.EXC_FLAVOURS[
+        (case.get("fault") or {}).get("exc", "exception")]
     violations = []
     notes = []
     outcomes = []
@@ -658,7 +662,7 @@ def run_case(case, dec):
             outcome = "returned"
             try:
                 call()
-            except InjectedFault:
+            except models.INJECTED:
                 outcome = "raised:InjectedFault"
             except simsched.Deadlock:
                 outcome = "deadlock"
